@@ -521,6 +521,67 @@ theorem viewOf_subApi (api : List Method) (sels : List String) : SubApi (viewOf 
       · simp only [ha]
         exact ih h
 
+/-! ### Selective GAPIC generation in the same service yaml -/
+
+theorem prune_subApi (allow : List String) (internal : Bool) (api : List Method) : SubApi (prune allow internal api) api := by
+  unfold prune
+  split
+  · intro sel m h; exact h
+  · exact viewOf_subApi api allow
+
+/-- **Selective generation never waives a condition**: whatever the allow-list and the mode, a list that the declared
+API rejects (repeated selector, unknown method, streaming method, bad field) aborts the generation of the pruned API. -/
+theorem selective_generation_rejects_invalid (api : List Method) (allow : List String) (internal : Bool)
+    (views : List (List Method)) (ss : List Settings) (hne : views ≠ []) (hbad : validate api ss ≠ []) :
+    generate (prune allow internal api) views ss ≠ [] :=
+  generation_rejects_invalid _ views ss hne
+    (fun h => hbad (view_accepts_implies_api_accepts (prune_subApi allow internal api) ss h))
+
+/-- in particular a selector that names no method of the declared API ("Method was not found."), on or off the allow-list -/
+theorem selective_generation_rejects_unknown_selector (api : List Method) (allow : List String) (internal : Bool)
+    (views : List (List Method)) (ss : List Settings) (s : Settings) (hne : views ≠ []) (hs : s ∈ ss)
+    (hno : getMethod api s.selector = none) : generate (prune allow internal api) views ss ≠ [] :=
+  selective_generation_rejects_invalid api allow internal views ss hne
+    (each_single_violation_rejected api ss s hs (.noMethod hno))
+
+/-- `generate_omitted_as_internal` (or an empty allow-list): the API keeps all its methods — settings of an omitted
+(internal) method are validated and honoured like any other -/
+theorem prune_internal (allow : List String) (api : List Method) : prune allow true api = api := by
+  simp [prune]
+
+theorem prune_no_allow_list (internal : Bool) (api : List Method) : prune [] internal api = api := by
+  simp [prune]
+
+/-- omit mode, what the code does: an entry for a declared method that is not on the (non-empty) allow-list is
+reported as "Method was not found." and aborts the generation (the method is no method of the generated API) -/
+theorem omitted_method_settings_rejected (api : List Method) (allow : List String) (views : List (List Method))
+    (ss : List Settings) (s : Settings) (hne : views ≠ []) (hal : allow ≠ []) (hs : s ∈ ss)
+    (hom : allow.contains s.selector = false) : generate (prune allow false api) views ss ≠ [] := by
+  apply generation_rejects_invalid _ views ss hne
+  apply each_single_violation_rejected _ ss s hs
+  apply Violation.noMethod
+  have he : allow.isEmpty = false := by simpa [List.isEmpty_iff] using hal
+  simp only [prune, he, Bool.or_self, Bool.false_eq_true, if_false]
+  unfold getMethod viewOf
+  cases h : List.find? (fun m => m.selector == s.selector) (List.filter (fun m => allow.contains m.selector) api) with
+  | none => rfl
+  | some m =>
+    exfalso
+    have h1 := List.find?_some h
+    have h2 := (List.mem_filter.mp (List.mem_of_find?_eq_some h)).2
+    have e : m.selector = s.selector := by simpa using h1
+    rw [e, hom] at h2
+    exact Bool.false_ne_true h2
+
+example : prune ["p.S.Create"] false demoApi = [mCreate] ∧ prune ["p.S.Create"] true demoApi = demoApi := by decide
+example : generate (prune ["p.S.Create"] false demoApi) [prune ["p.S.Create"] false demoApi] [⟨"p.S.Createe", ["request_id"]⟩] =
+    [("p.S.Createe", .methodNotFound)] ∧
+    generate (prune ["p.S.Create"] true demoApi) [demoApi] [⟨"no.such.Api.Method", []⟩] = [("no.such.Api.Method", .methodNotFound)] ∧
+    generate (prune ["p.S.Create"] false demoApi) [[mCreate]] [⟨"p.S.Watch", []⟩] = [("p.S.Watch", .methodNotFound)] ∧
+    generate (prune ["p.S.Create"] true demoApi) [demoApi] [⟨"p.S.Watch", []⟩, ⟨"p.S.Create", ["request_id"]⟩] = [] := by decide
+example : getMethod demoApi "p.S.Createe" = none ∧ (["p.S.Create"] : List String) ≠ [] ∧
+    (["p.S.Create"] : List String).contains "p.S.Watch" = false := by decide
+
 /-- regression (repaired by cb5c413): a list that is valid for the API used to be rejected when a view that does not
 hold the named service validated it ("Method was not found.") — services in sub-packages; it is accepted now. -/
 def mAux : Method := ⟨"p.sub.T.Make", false, false, [fName, fId]⟩
